@@ -44,7 +44,8 @@ def seq(term, ty, src="slice", ops=None):
     else:
         body += terminal_code(p, ".num_threads(1)", term, n)
     body += SEQ + "    kani::cover!(true);\n"
-    name = cfg_name("c08_max1", term, p.type(), src, "eager" if p.eager_sites() else "")
+    sig = "".join({"map": "m", "filter": "f", "filter_map": "o", "flat_map": "l"}[o.kind] for o in p.ops)
+    name = cfg_name("c08_max1", term, p.type(), src, ("eager_" + sig) if p.eager_sites() else "")
     return H(name, body, {"terminal": term, "type": p.type(), "pipeline": p.descr(), "n": n, "threads": 1, "num_threads": "Max(1)",
                           "available_parallelism": 4, "schedule": "must stay on the caller"},
              unwind=(2 * n + 3 if any(o.kind == "flat_map" for o in p.ops) else n + 3), weight=6)
